@@ -690,3 +690,710 @@ Proof.
   intros (off' & sg & h1 & h2 & m1 & m2 & Hs & _ & D1 & _). inversion Hs. subst. discriminate.
 Qed.
 Print Assumptions parse_time_zone_exactly_refuted.
+
+
+(* ------------------------------------------------------------------------------------------ *)
+(** * 6. $toMillis inverts $fromMillis on the default picture *)
+
+(* decimal digit strings of fixed width *)
+Definition dch (n : Z) : ascii := ascii_of_Z (48 + n).
+Definition dig2 (n : Z) : string := String (dch (n / 10)) (String (dch (n mod 10)) EmptyString).
+Definition dig3 (n : Z) : string := String (dch (n / 100)) (dig2 (n mod 100)).
+Definition dig4 (n : Z) : string := String (dch (n / 1000)) (dig3 (n mod 1000)).
+
+Lemma byte_of_ascii_of_Z z : 0 <= z <= 255 -> byte_of (ascii_of_Z z) = z.
+Proof.
+  intros H. unfold byte_of, ascii_of_Z. rewrite N_ascii_embedding.
+  - rewrite Z2N.id by lia. lia.
+  - apply N2Z.inj_lt. rewrite Z2N.id by lia. change (Z.of_N 256) with 256. lia.
+Qed.
+
+Lemma byte_of_dch a : 0 <= a <= 9 -> byte_of (dch a) = 48 + a.
+Proof. intros H. unfold dch. apply byte_of_ascii_of_Z. lia. Qed.
+
+Lemma is_digit_dch a : 0 <= a <= 9 -> is_digit_byte (byte_of (dch a)) = true.
+Proof. intros H. rewrite byte_of_dch by exact H. unfold is_digit_byte. lia. Qed.
+
+Lemma getnum_dig2 n rest fixed : 0 <= n <= 99 ->
+  getnum (dig2 n ++ rest) fixed = Some (n, rest).
+Proof.
+  intros H. unfold getnum, is_digit_at, byte_at, dig2. cbn [append String.get sdrop].
+  rewrite !is_digit_dch by lia. cbn [negb]. rewrite !byte_of_dch by lia. f_equal. f_equal. lia.
+Qed.
+
+Lemma time_atoi_shape s : time_atoi s =
+  let neg := match s with String c _ => Ascii.eqb c "-" | _ => false end in
+  let body := match s with
+              | String c r => if Ascii.eqb c "-" || Ascii.eqb c "+" then r else s
+              | _ => s
+              end in
+  match leading_int body with
+  | None => None
+  | Some (q, rem) =>
+      match rem with
+      | EmptyString => let x := wrap64 q in Some (if neg then wrap64 (- x) else x)
+      | _ => None
+      end
+  end.
+Proof.
+  destruct s as [|c r]; [reflexivity|].
+  destruct c as [[] [] [] [] [] [] [] []]; reflexivity.
+Qed.
+
+Lemma dch_not_sign a : 0 <= a <= 9 -> Ascii.eqb (dch a) "-" = false /\ Ascii.eqb (dch a) "+" = false.
+Proof.
+  intros H. split; apply Ascii.eqb_neq; intros E; apply (f_equal byte_of) in E;
+    rewrite byte_of_dch in E by exact H;
+    [change (byte_of "-"%char) with 45 in E | change (byte_of "+"%char) with 43 in E]; lia.
+Qed.
+
+Lemma leading_int_step a r x : 0 <= a <= 9 -> 0 <= x < 100000000 ->
+  leading_int_aux (String (dch a) r) x = leading_int_aux r (x * 10 + a).
+Proof.
+  intros Ha Hx. cbn [leading_int_aux]. rewrite is_digit_dch by exact Ha.
+  rewrite byte_of_dch by exact Ha. unfold two63.
+  destruct (9223372036854775808 / 10 <? x) eqn:E1; [lia|].
+  destruct (9223372036854775808 <? x * 10 + (48 + a - 48)) eqn:E2; [lia|].
+  f_equal. lia.
+Qed.
+
+Lemma time_atoi_dig4 n : 0 <= n <= 9999 -> time_atoi (dig4 n) = Some n.
+Proof.
+  intros H. rewrite time_atoi_shape. unfold dig4, dig3, dig2. cbv zeta.
+  destruct (dch_not_sign (n / 1000) ltac:(lia)) as [-> ->]. cbn [orb].
+  unfold leading_int. rewrite !leading_int_step by lia. cbn [leading_int_aux].
+  rewrite wrap64_id by (unfold two63; lia). f_equal. lia.
+Qed.
+
+Lemma time_atoi_dig3 n : 0 <= n <= 999 -> time_atoi (dig3 n) = Some n.
+Proof.
+  intros H. rewrite time_atoi_shape. unfold dig3, dig2. cbv zeta.
+  destruct (dch_not_sign (n / 100) ltac:(lia)) as [-> ->]. cbn [orb].
+  unfold leading_int. rewrite !leading_int_step by lia. cbn [leading_int_aux].
+  rewrite wrap64_id by (unfold two63; lia). f_equal. lia.
+Qed.
+
+(* formatNano of a whole number of milliseconds, three digits *)
+Lemma format_nano_ms k : 0 <= k <= 999 -> format_nano (k * 1000000) 3 = dig3 k.
+Proof.
+  intros H. unfold format_nano. change (9 <? 3) with false. cbv iota.
+  change (Z.to_nat 3) with 3%nat. cbn [nano_digits].
+  set (q1 := Z.quot (k * 1000000) 10). assert (q1 = k * 100000) as E1 by (subst q1; lia).
+  set (q2 := Z.quot q1 10). assert (q2 = k * 10000) as E2 by (subst q2; lia).
+  set (q3 := Z.quot q2 10). assert (q3 = k * 1000) as E3 by (subst q3; lia).
+  set (q4 := Z.quot q3 10). assert (q4 = k * 100) as E4 by (subst q4; lia).
+  set (q5 := Z.quot q4 10). assert (q5 = k * 10) as E5 by (subst q5; lia).
+  set (q6 := Z.quot q5 10). assert (q6 = k) as E6 by (subst q6; lia).
+  set (q7 := Z.quot q6 10). assert (q7 = k / 10) as E7 by (subst q7; lia).
+  set (q8 := Z.quot q7 10). assert (q8 = k / 100) as E8 by (subst q8; lia).
+  cbn [stake]. unfold dig3, dig2, dch.
+  rewrite E8, E7, E6. clear - H.
+  replace (Z.rem (k / 100) 10 + 48) with (48 + k / 100) by lia.
+  replace (Z.rem (k / 10) 10 + 48) with (48 + k mod 100 / 10) by lia.
+  replace (Z.rem k 10 + 48) with (48 + (k mod 100) mod 10) by lia.
+  reflexivity.
+Qed.
+
+Section InverseLaw.
+
+(* What the proof needs to know about FormatNumber(float64(n), layout) — three facts about the
+   layouts "1" and "01" (validated against the real FormatNumber for every n in these ranges by
+   the vector generator, and to be discharged by the FormatNumber model). *)
+Variable fi : Z -> string -> lres string.
+Hypothesis fi_year : forall n, 1000 <= n <= 9999 -> fi n "1" = LOk (dig4 n).
+Hypothesis fi_2 : forall n, 0 <= n <= 99 -> fi n "01" = LOk (dig2 n).
+Hypothesis fi_2neg : forall n, -99 <= n < 0 -> fi n "01" = LOk (String "-" (dig2 (- n))).
+
+(* --- symbolic execution of FormatTime on a closed picture --- *)
+
+Lemma ft_step_plain t pic st cur r : (r =? 91) = false -> (r =? 93) = false ->
+  format_time_step fi t pic st (cur, r) = LOk st.
+Proof. intros H1 H2. unfold format_time_step. now rewrite H1, H2. Qed.
+
+Lemma ft_step_open t pic start dcb ex res cur :
+  format_time_step fi t pic
+    {| fs_start := start; fs_in_marker := false; fs_dcb := dcb; fs_expanded := ex; fs_result := res |}
+    (cur, 91) =
+  lbind (slice_checked pic start cur) (fun lit =>
+    LOk {| fs_start := S cur; fs_in_marker := true; fs_dcb := dcb; fs_expanded := ex;
+           fs_result := res ++ lit |}).
+Proof. reflexivity. Qed.
+
+Lemma ft_step_close t pic start dcb ex res cur : (cur =? start)%nat = false ->
+  format_time_step fi t pic
+    {| fs_start := start; fs_in_marker := true; fs_dcb := dcb; fs_expanded := ex; fs_result := res |}
+    (cur, 93) =
+  lbind (slice_checked pic start cur) (fun body =>
+  lbind (expand_variable_marker fi t body) (fun s =>
+    LOk {| fs_start := S cur; fs_in_marker := false; fs_dcb := dcb; fs_expanded := true;
+           fs_result := res ++ s |})).
+Proof.
+  intros H. unfold format_time_step. change (93 =? 91) with false. change (93 =? 93) with true.
+  cbv iota. cbn [fs_in_marker fs_start fs_dcb fs_expanded fs_result]. now rewrite H.
+Qed.
+
+(* the markers of the default pictures *)
+Lemma evm_decimal t body c fmt n :
+  parse_variable_marker body = LOk (c, {| mk_format := fmt; mk_modifier := ModNone; mk_minw := 0; mk_maxw := 0 |}) ->
+  seqb fmt "" = false ->
+  (forall mk, mk_format mk = fmt -> mk_modifier mk = ModNone ->
+              expand_date_component fi t c mk = format_integer_component fi n mk) ->
+  forall s, fi n fmt = LOk s ->
+  expand_variable_marker fi t body = LOk s.
+Proof.
+  intros Hp Hne Hc s Hfi. unfold expand_variable_marker. rewrite Hp. cbn [lbind mk_format].
+  rewrite Hne. rewrite Hc by reflexivity.
+  unfold format_integer_component. cbn [mk_format mk_modifier]. rewrite Hfi. reflexivity.
+Qed.
+
+Lemma evm_default t body c n :
+  parse_variable_marker body = LOk (c, zero_marker) ->
+  (forall mk, mk_format mk = default_date_format c -> mk_modifier mk = ModNone ->
+              expand_date_component fi t c mk = format_integer_component fi n mk) ->
+  forall s, fi n (default_date_format c) = LOk s ->
+  expand_variable_marker fi t body = LOk s.
+Proof.
+  intros Hp Hc s Hfi. unfold expand_variable_marker. rewrite Hp. cbn [lbind mk_format zero_marker].
+  change (seqb "" "") with true. cbv iota.
+  rewrite Hc by reflexivity.
+  unfold format_integer_component, with_default_format. cbn [mk_format mk_modifier]. rewrite Hfi. reflexivity.
+Qed.
+
+Lemma edc_Y t mk : mk_format mk = "1"%string -> mk_modifier mk = ModNone -> mk_maxw mk = 0 ->
+  expand_date_component fi t cY mk = format_integer_component fi (t_year t) mk.
+Proof.
+  intros Hf Hm Hw. unfold expand_date_component. change (cY =? cY) with true. cbv iota.
+  unfold format_year. rewrite Hf, Hw. reflexivity.
+Qed.
+
+Ltac edc_dec :=
+  let Hf := fresh in let Hm := fresh in
+  intros Hf Hm; unfold expand_date_component;
+  repeat match goal with |- context [?a =? ?b] =>
+    let v := eval vm_compute in (a =? b) in change (a =? b) with v end;
+  cbv iota; unfold format_decimal_field, format_month, format_hour; rewrite Hf; reflexivity.
+
+Lemma edc_M t mk : mk_format mk = "01"%string -> mk_modifier mk = ModNone ->
+  expand_date_component fi t cM mk = format_integer_component fi (t_month t) mk.
+Proof. edc_dec. Qed.
+Lemma edc_D t mk : mk_format mk = "01"%string -> mk_modifier mk = ModNone ->
+  expand_date_component fi t cD mk = format_integer_component fi (t_day t) mk.
+Proof. edc_dec. Qed.
+Lemma edc_H t mk : mk_format mk = "01"%string -> mk_modifier mk = ModNone ->
+  expand_date_component fi t cH mk = format_integer_component fi (t_hour t) mk.
+Proof. edc_dec. Qed.
+Lemma edc_m t mk : mk_format mk = "01"%string -> mk_modifier mk = ModNone ->
+  expand_date_component fi t cm mk = format_integer_component fi (t_minute t) mk.
+Proof. edc_dec. Qed.
+Lemma edc_s t mk : mk_format mk = "01"%string -> mk_modifier mk = ModNone ->
+  expand_date_component fi t cs mk = format_integer_component fi (t_second t) mk.
+Proof. edc_dec. Qed.
+
+Lemma ft_loop_cons t pic cr l st :
+  format_time_loop fi t pic (cr :: l) st =
+  lbind (format_time_step fi t pic st cr) (format_time_loop fi t pic l).
+Proof. reflexivity. Qed.
+
+(* the text of the zone for [Z01:01t]: "Z" for UTC, else sign, hours, ":", minutes — the sign
+   is that of the HOUR part (so offsets in (-1h, 0) get a "+": a defect, see below) *)
+Definition ztext (h m : Z) : string :=
+  if (h =? 0) && (m =? 0) then "Z"%string
+  else if 0 <=? h then String "+" (dig2 h ++ String ":" (dig2 (Z.abs m)))
+  else String "-" (dig2 (- h) ++ String ":" (dig2 (Z.abs m))).
+
+Lemma format_timezone_default t name h m mk :
+  get_timezone_info t = (name, h, m) -> -99 <= h <= 99 -> -99 <= m <= 99 ->
+  mk_format mk = "01:01"%string -> mk_modifier mk = ModTraditional -> mk_minw mk = 0 ->
+  format_timezone fi t mk false = LOk (ztext h m).
+Proof.
+  intros Hi Hh Hm Hf Hmod Hw. unfold format_timezone. rewrite Hi, Hf, Hmod, Hw.
+  change (get_timezone_style "01:01") with (TzSplit "01" "01" ":").
+  cbn [is_traditional andb]. unfold ztext.
+  destruct ((h =? 0) && (m =? 0)) eqn:E0.
+  - cbn [lbind andb]. reflexivity.
+  - unfold format_timezone_split.
+    rewrite (fi_2 (Z.abs m)) by lia.
+    destruct (0 <=? h) eqn:Eh.
+    + rewrite (fi_2 h) by lia. cbn [lbind lmap andb]. unfold pad_right.
+      change (0 <? 0) with false. cbv iota. reflexivity.
+    + rewrite (fi_2neg h) by lia. cbn [lbind lmap andb]. unfold pad_right.
+      change (0 <? 0) with false. cbv iota. reflexivity.
+Qed.
+
+Ltac ft_one :=
+  rewrite ft_loop_cons;
+  lazymatch goal with
+  | |- context [format_time_step _ _ _ _ (_, 91)] =>
+      rewrite ft_step_open;
+      match goal with |- context [slice_checked ?p ?a ?b] =>
+        let v := eval vm_compute in (slice_checked p a b) in change (slice_checked p a b) with v end;
+      cbn [lbind]
+  | |- context [format_time_step _ _ _ _ (_, 93)] =>
+      rewrite ft_step_close by reflexivity;
+      match goal with |- context [slice_checked ?p ?a ?b] =>
+        let v := eval vm_compute in (slice_checked p a b) in change (slice_checked p a b) with v end;
+      cbn [lbind]
+  | |- _ => rewrite ft_step_plain by reflexivity; cbn [lbind]
+  end.
+
+Lemma t_fields_range t :
+  1 <= t_month t <= 12 /\ 1 <= t_day t <= 31 /\ 0 <= t_hour t <= 23 /\
+  0 <= t_minute t <= 59 /\ 0 <= t_second t <= 59.
+Proof.
+  unfold t_month, t_day, t_hour, t_minute, t_second, t_sod.
+  pose proof (civil_bijection (t_days t)) as Hb.
+  destruct (civil_of_days (t_days t)) as [[y m] d]. destruct Hb as (_ & Hm & Hd).
+  assert (days_in_month y m <= 31).
+  { unfold days_in_month. destruct (m =? 2); [destruct (is_leap y); lia|].
+    destruct ((m =? 4) || (m =? 6) || (m =? 9) || (m =? 11)); lia. }
+  repeat split; try lia.
+Qed.
+
+Lemma evm_Y t : 1000 <= t_year t <= 9999 ->
+  expand_variable_marker fi t "Y" = LOk (dig4 (t_year t)).
+Proof.
+  intros Hy. unfold expand_variable_marker.
+  change (parse_variable_marker "Y") with (@LOk (Z * marker) (cY, zero_marker)).
+  cbn [lbind mk_format zero_marker]. change (seqb "" "") with true. cbv iota.
+  rewrite edc_Y by reflexivity.
+  unfold format_integer_component, with_default_format. cbn [mk_format mk_modifier].
+  change (default_date_format cY) with "1"%string. rewrite fi_year by exact Hy. reflexivity.
+Qed.
+
+Lemma evm_two t body c n :
+  parse_variable_marker body = LOk (c, {| mk_format := "01"; mk_modifier := ModNone; mk_minw := 0; mk_maxw := 0 |}) ->
+  (forall mk, mk_format mk = "01"%string -> mk_modifier mk = ModNone ->
+              expand_date_component fi t c mk = format_integer_component fi n mk) ->
+  0 <= n <= 99 ->
+  expand_variable_marker fi t body = LOk (dig2 n).
+Proof.
+  intros Hp Hc Hn. unfold expand_variable_marker. rewrite Hp. cbn [lbind mk_format].
+  change (seqb "01" "") with false. cbv iota. rewrite Hc by reflexivity.
+  unfold format_integer_component. cbn [mk_format mk_modifier]. rewrite fi_2 by exact Hn. reflexivity.
+Qed.
+
+Lemma evm_two_default t body c n :
+  parse_variable_marker body = LOk (c, zero_marker) -> default_date_format c = "01"%string ->
+  (forall mk, mk_format mk = "01"%string -> mk_modifier mk = ModNone ->
+              expand_date_component fi t c mk = format_integer_component fi n mk) ->
+  0 <= n <= 99 ->
+  expand_variable_marker fi t body = LOk (dig2 n).
+Proof.
+  intros Hp Hd Hc Hn. unfold expand_variable_marker. rewrite Hp. cbn [lbind mk_format zero_marker].
+  change (seqb "" "") with true. cbv iota. unfold with_default_format. rewrite Hd.
+  rewrite Hc by reflexivity.
+  unfold format_integer_component. cbn [mk_format mk_modifier]. rewrite fi_2 by exact Hn. reflexivity.
+Qed.
+
+Lemma evm_f001 t : expand_variable_marker fi t "f001" = LOk (format_nano (t_nanosecond t) 3).
+Proof. reflexivity. Qed.
+
+Lemma evm_Z t name h m :
+  get_timezone_info t = (name, h, m) -> -99 <= h <= 99 -> -99 <= m <= 99 ->
+  expand_variable_marker fi t "Z01:01t" = LOk (ztext h m).
+Proof.
+  intros Hi Hh Hm. unfold expand_variable_marker.
+  change (parse_variable_marker "Z01:01t") with
+    (@LOk (Z * marker) (cZ, {| mk_format := "01:01"; mk_modifier := ModTraditional; mk_minw := 0; mk_maxw := 0 |})).
+  cbn [lbind mk_format]. change (seqb "01:01" "") with false. cbv iota.
+  unfold expand_date_component.
+  repeat match goal with |- context [cZ =? ?b] =>
+    let v := eval vm_compute in (cZ =? b) in change (cZ =? b) with v end.
+  cbv iota. rewrite (format_timezone_default t name h m) by (auto; reflexivity). reflexivity.
+Qed.
+
+(* FormatTime on the default picture *)
+Lemma format_time_default t name h m :
+  1000 <= t_year t <= 9999 ->
+  get_timezone_info t = (name, h, m) -> -99 <= h <= 99 -> -99 <= m <= 99 ->
+  format_time fi t default_format_time_layout =
+  LOk (dig4 (t_year t) ++ "-" ++ dig2 (t_month t) ++ "-" ++ dig2 (t_day t) ++ "T" ++
+       dig2 (t_hour t) ++ ":" ++ dig2 (t_minute t) ++ ":" ++ dig2 (t_second t) ++ "." ++
+       format_nano (t_nanosecond t) 3 ++ ztext h m)%string.
+Proof.
+  intros Hy Hi Hh Hm.
+  destruct (t_fields_range t) as (RM & RD & RH & Rm & Rs).
+  pose proof (evm_Y t Hy) as EY.
+  pose proof (evm_two t "M01" cM (t_month t) eq_refl (edc_M t) ltac:(lia)) as EM.
+  pose proof (evm_two t "D01" cD (t_day t) eq_refl (edc_D t) ltac:(lia)) as ED.
+  pose proof (evm_two t "H01" cH (t_hour t) eq_refl (edc_H t) ltac:(lia)) as EH.
+  pose proof (evm_two_default t "m" cm (t_minute t) eq_refl eq_refl (edc_m t) ltac:(lia)) as Em.
+  pose proof (evm_two_default t "s" cs (t_second t) eq_refl eq_refl (edc_s t) ltac:(lia)) as Es.
+  pose proof (evm_f001 t) as Ef.
+  pose proof (evm_Z t name h m Hi Hh Hm) as EZ.
+  unfold format_time, default_format_time_layout.
+  let l := eval vm_compute in (runes_pos "[Y]-[M01]-[D01]T[H01]:[m]:[s].[f001][Z01:01t]") in
+  change (runes_pos "[Y]-[M01]-[D01]T[H01]:[m]:[s].[f001][Z01:01t]") with l.
+  repeat (ft_one; try first [rewrite EY | rewrite EM | rewrite ED | rewrite EH | rewrite Em
+                            | rewrite Es | rewrite Ef | rewrite EZ]; cbn [lbind]).
+  cbn [format_time_loop lbind fs_in_marker fs_expanded negb fs_result fs_start].
+  change (sdrop 45 "[Y]-[M01]-[D01]T[H01]:[m]:[s].[f001][Z01:01t]") with ""%string.
+  f_equal. cbn [append]. rewrite !sapp_assoc, sapp_nil_r. cbn [append]. reflexivity.
+Qed.
+
+(* the layouts ToMillis derives from the default parse pictures *)
+Lemma ref_layout_1 :
+  format_time fi ref_time "[Y]-[M01]-[D01]T[H01]:[m]:[s][Z01:01t]" = LOk "2006-01-02T15:04:05-07:00"%string.
+Proof.
+  set (t := ref_time).
+  assert (1000 <= t_year t <= 9999) as Hy by (vm_compute; split; discriminate).
+  destruct (t_fields_range t) as (RM & RD & RH & Rm & Rs).
+  pose proof (evm_Y t Hy) as EY.
+  pose proof (evm_two t "M01" cM (t_month t) eq_refl (edc_M t) ltac:(lia)) as EM.
+  pose proof (evm_two t "D01" cD (t_day t) eq_refl (edc_D t) ltac:(lia)) as ED.
+  pose proof (evm_two t "H01" cH (t_hour t) eq_refl (edc_H t) ltac:(lia)) as EH.
+  pose proof (evm_two_default t "m" cm (t_minute t) eq_refl eq_refl (edc_m t) ltac:(lia)) as Em.
+  pose proof (evm_two_default t "s" cs (t_second t) eq_refl eq_refl (edc_s t) ltac:(lia)) as Es.
+  pose proof (evm_Z t "MST" (-7) 0 eq_refl ltac:(lia) ltac:(lia)) as EZ.
+  unfold format_time.
+  let l := eval vm_compute in (runes_pos "[Y]-[M01]-[D01]T[H01]:[m]:[s][Z01:01t]") in
+  change (runes_pos "[Y]-[M01]-[D01]T[H01]:[m]:[s][Z01:01t]") with l.
+  repeat (ft_one; try first [rewrite EY | rewrite EM | rewrite ED | rewrite EH | rewrite Em
+                            | rewrite Es | rewrite EZ]; cbn [lbind]).
+  cbn [format_time_loop lbind fs_in_marker fs_expanded negb fs_result fs_start].
+  vm_compute. reflexivity.
+Qed.
+
+(* --- symbolic execution of time.Parse on the layout "2006-01-02T15:04:05Z07:00" --- *)
+
+Lemma parse_loop_step f layout value p :
+  parse_loop (S f) layout value p =
+  let '(prefix, st, suffix) := next_std_chunk layout in
+  match skip value prefix with
+  | None => LErr "parse: literal text mismatch"
+  | Some value =>
+      match st with
+      | StdNone => match value with EmptyString => LOk p | _ => LErr "parse: extra text" end
+      | _ => match parse_elem st suffix value p with
+             | None => LErr "parse: bad or out-of-range element"
+             | Some (p', value') => parse_loop f suffix value' p'
+             end
+      end
+  end.
+Proof. reflexivity. Qed.
+
+Lemma skip_nil v : skip v "" = Some v.
+Proof. reflexivity. Qed.
+Lemma skip_char c rest : ascii_eqb c " " = false -> skip (String c rest) (String c "") = Some rest.
+Proof.
+  intros H. unfold skip. cbn [skip_aux]. rewrite H.
+  unfold ascii_eqb. rewrite Ascii.eqb_refl. reflexivity.
+Qed.
+
+Lemma getnum_two n rest fixed : 0 <= n <= 99 ->
+  getnum (String (dch (n / 10)) (String (dch (n mod 10)) rest)) fixed = Some (n, rest).
+Proof. intros H. apply (getnum_dig2 n rest fixed H). Qed.
+
+Lemma pe_longyear suf y rest p : 0 <= y <= 9999 ->
+  parse_elem StdLongYear suf (dig4 y ++ rest) p = Some (set_year y p, rest).
+Proof.
+  intros H. unfold parse_elem.
+  assert ((slen (dig4 y ++ rest) <? 4)%nat = false) as -> by reflexivity.
+  assert (is_digit_at (dig4 y ++ rest) 0 = true) as ->
+    by (unfold is_digit_at, byte_at, dig4; cbn [append String.get]; apply is_digit_dch; lia).
+  cbn [orb negb].
+  assert (stake 4 (dig4 y ++ rest) = dig4 y) as -> by reflexivity.
+  rewrite time_atoi_dig4 by exact H. reflexivity.
+Qed.
+
+Lemma pe_zeromonth suf n rest p : 1 <= n <= 12 ->
+  parse_elem StdZeroMonth suf (dig2 n ++ rest) p = Some (set_month n p, rest).
+Proof.
+  intros H. unfold parse_elem. rewrite getnum_dig2 by lia.
+  destruct ((n <=? 0) || (12 <? n)) eqn:E; [lia|reflexivity].
+Qed.
+
+Lemma pe_zeroday suf n rest p : 0 <= n <= 99 ->
+  parse_elem StdZeroDay suf (dig2 n ++ rest) p = Some (set_day n p, rest).
+Proof. intros H. unfold parse_elem. rewrite getnum_dig2 by lia. reflexivity. Qed.
+
+Lemma pe_hour suf n rest p : 0 <= n <= 23 ->
+  parse_elem StdHour suf (dig2 n ++ rest) p = Some (set_hour n p, rest).
+Proof.
+  intros H. unfold parse_elem. rewrite getnum_dig2 by lia.
+  destruct ((n <? 0) || (24 <=? n)) eqn:E; [lia|reflexivity].
+Qed.
+
+Lemma pe_zerominute suf n rest p : 0 <= n <= 59 ->
+  parse_elem StdZeroMinute suf (dig2 n ++ rest) p = Some (set_min n p, rest).
+Proof.
+  intros H. unfold parse_elem. rewrite getnum_dig2 by lia.
+  destruct ((n <? 0) || (60 <=? n)) eqn:E; [lia|reflexivity].
+Qed.
+
+(* seconds followed by ".ddd" although the layout has no fractional element: the "special
+   case" of time.Parse reads the fraction *)
+Lemma pe_zerosecond_frac n k rest p : 0 <= n <= 59 -> 0 <= k <= 999 ->
+  count_digits rest = 0%nat ->
+  parse_elem StdZeroSecond "Z07:00" (dig2 n ++ String "." (dig3 k ++ rest)) p
+  = Some (set_nsec (k * 1000000) (set_sec n p), rest).
+Proof.
+  intros Hn Hk Hr. unfold parse_elem. rewrite getnum_dig2 by lia.
+  destruct ((n <? 0) || (60 <=? n)) eqn:E; [lia|]. cbv zeta.
+  assert ((2 <=? slen (String "." (dig3 k ++ rest)))%nat = true) as -> by reflexivity.
+  change (byte_at (String "." (dig3 k ++ rest)) 0) with 46.
+  change ((46 =? 46) || (46 =? 44)) with true.
+  assert (is_digit_at (String "." (dig3 k ++ rest)) 1 = true) as ->
+    by (unfold is_digit_at, byte_at, dig3; cbn [append String.get]; apply is_digit_dch; lia).
+  cbn [andb].
+  change (next_std_chunk "Z07:00") with (""%string, StdISO8601ColonTZ, ""%string). cbv iota beta.
+  assert (count_digits_from (String "." (dig3 k ++ rest)) 2 = 2%nat) as ->.
+  { unfold count_digits_from, dig3, dig2. cbn [append sdrop count_digits].
+    rewrite !is_digit_dch by lia. now rewrite Hr. }
+  change (2 + 2)%nat with 4%nat.
+  unfold parse_nanoseconds.
+  change (byte_at (String "." (dig3 k ++ rest)) 0) with 46.
+  change (negb ((46 =? 46) || (46 =? 44))) with false. cbv iota.
+  change (10 <? 4)%nat with false. cbv iota.
+  assert (sslice 1 4 (String "." (dig3 k ++ rest)) = dig3 k) as -> by reflexivity.
+  rewrite time_atoi_dig3 by exact Hk.
+  destruct (k <? 0) eqn:E2; [lia|].
+  assert (sdrop 4 (String "." (dig3 k ++ rest)) = rest) as -> by reflexivity.
+  change (10 ^ Z.of_nat (10 - 4)) with 1000000. reflexivity.
+Qed.
+
+Lemma pe_zone_Z p : parse_elem StdISO8601ColonTZ "" "Z" p = Some (set_utc p, ""%string).
+Proof. reflexivity. Qed.
+
+Lemma pe_zone_num sg ah am p : sg = "+"%char \/ sg = "-"%char -> 0 <= ah <= 24 -> 0 <= am <= 59 ->
+  parse_elem StdISO8601ColonTZ "" (String sg (dig2 ah ++ String ":" (dig2 am))) p
+  = Some (set_zoff ((if Ascii.eqb sg "-" then -1 else 1) * ((ah * 60 + am) * 60)) p, ""%string).
+Proof.
+  intros Hsg Hh Hm. unfold parse_elem.
+  assert (byte_at (String sg (dig2 ah ++ String ":" (dig2 am))) 0 =? 90 = false) as ->
+    by (destruct Hsg as [-> | ->]; reflexivity).
+  unfold parse_num_tz.
+  assert ((slen (String sg (dig2 ah ++ String ":" (dig2 am))) <? 6)%nat = false) as -> by reflexivity.
+  assert (byte_at (String sg (dig2 ah ++ String ":" (dig2 am))) 3 = 58) as -> by reflexivity.
+  change (negb (58 =? 58)) with false. cbv iota.
+  assert (sslice 1 3 (String sg (dig2 ah ++ String ":" (dig2 am))) = dig2 ah ++ "")%string as -> by reflexivity.
+  assert (sslice 4 6 (String sg (dig2 ah ++ String ":" (dig2 am))) = dig2 am ++ "")%string as -> by reflexivity.
+  assert (sslice 0 1 (String sg (dig2 ah ++ String ":" (dig2 am))) = String sg "") as -> by reflexivity.
+  assert (sdrop 6 (String sg (dig2 ah ++ String ":" (dig2 am))) = ""%string) as -> by reflexivity.
+  rewrite !getnum_dig2 by lia.
+  change (getnum "00" true) with (Some (0, ""%string)).
+  destruct Hsg as [-> | ->].
+  - change (byte_at "+" 0) with 43. change (43 =? 43) with true. cbv iota.
+    change (Ascii.eqb "+" "-") with false. cbv iota.
+    replace ((24 <? ah) || (60 <? am) || (60 <? 0)) with false by lia. do 3 f_equal. lia.
+  - change (byte_at "-" 0) with 45. change (45 =? 43) with false. change (45 =? 45) with true.
+    cbv iota. change (Ascii.eqb "-" "-") with true. cbv iota.
+    replace ((24 <? ah) || (60 <? am) || (60 <? 0)) with false by lia. do 3 f_equal. lia.
+Qed.
+
+Lemma count_digits_ztext h m : count_digits (ztext h m) = 0%nat.
+Proof. unfold ztext. destruct ((h =? 0) && (m =? 0)); [reflexivity|]. destruct (0 <=? h); reflexivity. Qed.
+
+(* the offset (seconds) that ztext h m denotes when read back *)
+Definition zoff_of (h m : Z) : Z :=
+  if 0 <=? h then (h * 60 + Z.abs m) * 60 else - ((- h * 60 + Z.abs m) * 60).
+
+Ltac pl_step :=
+  rewrite parse_loop_step;
+  match goal with |- context [next_std_chunk ?L] =>
+    let v := eval vm_compute in (next_std_chunk L) in change (next_std_chunk L) with v end;
+  cbv iota beta; cbn [append];
+  first [rewrite skip_nil | rewrite skip_char by reflexivity];
+  cbv iota beta.
+
+Lemma parse_default_text y mo d H mi s k h m :
+  0 <= y <= 9999 -> 1 <= mo <= 12 -> 1 <= d <= days_in_month y mo -> 0 <= H <= 23 ->
+  0 <= mi <= 59 -> 0 <= s <= 59 -> 0 <= k <= 999 -> -24 <= h <= 24 -> -59 <= m <= 59 ->
+  exists t',
+    go_time_parse "2006-01-02T15:04:05Z07:00"
+      (dig4 y ++ "-" ++ dig2 mo ++ "-" ++ dig2 d ++ "T" ++ dig2 H ++ ":" ++ dig2 mi ++ ":" ++
+       dig2 s ++ "." ++ dig3 k ++ ztext h m) = LOk t' /\
+    unix_sec t' = days_of_civil y mo d * 86400 + H * 3600 + mi * 60 + s - zoff_of h m /\
+    nsec t' = k * 1000000.
+Proof.
+  intros Hy Hmo Hd HH Hmi Hs Hk Hh Hm.
+  assert (d <= 31) as Hd31.
+  { destruct Hd as [_ Hd]. unfold days_in_month in Hd. destruct (mo =? 2); [destruct (is_leap y); lia|].
+    destruct ((mo =? 4) || (mo =? 6) || (mo =? 9) || (mo =? 11)); lia. }
+  unfold go_time_parse.
+  change (S (slen "2006-01-02T15:04:05Z07:00")) with 26%nat.
+  pl_step. rewrite pe_longyear by lia. cbv iota beta.
+  pl_step. rewrite pe_zeromonth by lia. cbv iota beta.
+  pl_step. rewrite pe_zeroday by lia. cbv iota beta.
+  pl_step. rewrite pe_hour by lia. cbv iota beta.
+  pl_step. rewrite pe_zerominute by lia. cbv iota beta.
+  pl_step. rewrite pe_zerosecond_frac by (auto using count_digits_ztext). cbv iota beta.
+  pl_step.
+  unfold ztext, zoff_of.
+  destruct ((h =? 0) && (m =? 0)) eqn:E0.
+  - rewrite pe_zone_Z. cbv iota beta. pl_step. cbn [lbind].
+    unfold parse_finish. cbn.
+    replace (mo <? 0) with false by lia. replace (d <? 0) with false by lia. cbv iota.
+    replace ((d <? 1) || (days_in_month y mo <? d)) with false by lia.
+    eexists; split; [reflexivity|]. cbn [unix_sec nsec]. split; [|reflexivity].
+    assert (h = 0 /\ m = 0) as [-> ->] by lia. cbn. lia.
+  - destruct (0 <=? h) eqn:Eh.
+    + rewrite (pe_zone_num "+" h (Z.abs m)) by (auto; lia). cbv iota beta. pl_step. cbn [lbind].
+      change (Ascii.eqb "+" "-") with false. cbv iota.
+      match goal with |- context [set_zoff ?z _] => remember z as zz eqn:Ezz end.
+      unfold parse_finish. cbn.
+      replace (mo <? 0) with false by lia. replace (d <? 0) with false by lia. cbv iota.
+      replace ((d <? 1) || (days_in_month y mo <? d)) with false by lia.
+      replace (zz =? -1) with false by lia. cbn [negb].
+      eexists; split; [reflexivity|]. cbn [unix_sec nsec]. split; [lia|reflexivity].
+    + rewrite (pe_zone_num "-" (- h) (Z.abs m)) by (auto; lia). cbv iota beta. pl_step. cbn [lbind].
+      change (Ascii.eqb "-" "-") with true. cbv iota.
+      match goal with |- context [set_zoff ?z _] => remember z as zz eqn:Ezz end.
+      unfold parse_finish. cbn.
+      replace (mo <? 0) with false by lia. replace (d <? 0) with false by lia. cbv iota.
+      replace ((d <? 1) || (days_in_month y mo <? d)) with false by lia.
+      replace (zz =? -1) with false by lia. cbn [negb].
+      eexists; split; [reflexivity|]. cbn [unix_sec nsec]. split; [lia|reflexivity].
+Qed.
+
+(* the civil year of instant ms seen at offset off (seconds) *)
+Definition local_year (ms off : Z) : Z :=
+  let '(y, _, _) := civil_of_days ((ms / 1000 + off) / 86400) in y.
+
+(* General form: what $toMillis returns on the default rendering of ms at offset off — the
+   instant shifted by the difference between the true offset and the offset the text denotes. *)
+Lemma to_millis_from_millis_default_gen : forall ms tz off,
+  (tz = None /\ off = 0) \/
+  (exists s, tz = Some s /\ s <> EmptyString /\ parse_time_zone s = LOk (off, s)) ->
+  -90000 < off < 90000 ->
+  1000 <= local_year ms off <= 9999 ->
+  let ms' := ms + 1000 * (off - zoff_of (Z.quot off 3600) (Z.quot (Z.rem off 3600) 60)) in
+  - two63 <= ms' * 1000000 < two63 ->
+  exists text, from_millis fi ms None tz = LOk text /\ to_millis fi text None None = LOk ms'.
+Proof.
+  intros ms tz off Htz Hrange Hyear ms' Hwrap.
+  destruct (ms_to_time_fields ms) as (Fs & Fn & Fo & Fz).
+  (* the time value FormatTime receives *)
+  assert (exists t, unix_sec t = ms / 1000 /\ nsec t = (ms mod 1000) * 1000000 /\ offset t = off /\
+                    from_millis fi ms None tz = format_time fi t default_format_time_layout)
+    as (t & Ts & Tn & To & Hfrom).
+  { destruct Htz as [[-> ->] | (s & -> & Hne & Hp)].
+    - exists (ms_to_time ms). repeat split; auto.
+    - exists (time_in (ms_to_time ms) off s). cbn [time_in unix_sec nsec offset]. repeat split; auto.
+      unfold from_millis. cbn [opt_string].
+      assert (seqb s "" = false) as -> by (destruct s; [congruence|reflexivity]).
+      rewrite Hp. reflexivity. }
+  set (h := Z.quot off 3600) in *. set (m := Z.quot (Z.rem off 3600) 60) in *.
+  assert (get_timezone_info t = (zname t, h, m)) as Hi by (unfold get_timezone_info; now rewrite To).
+  assert (-24 <= h <= 24) as Hh by (subst h; lia).
+  assert (-59 <= m <= 59) as Hm by (subst m; lia).
+  assert (t_year t = local_year ms off) as Hty
+    by (unfold t_year, local_year, t_days, t_local_sec; now rewrite Ts, To).
+  rewrite Hfrom, (format_time_default t (zname t) h m) by (try rewrite Hty; auto; lia).
+  eexists; split; [reflexivity|].
+  (* ToMillis: first default layout *)
+  unfold to_millis. cbn [opt_string]. change (seqb "" "") with true. cbv iota.
+  unfold default_parse_time_layouts. cbn [to_millis_loop]. unfold parse_time at 1.
+  rewrite ref_layout_1.
+  change (replace_minus7 "2006-01-02T15:04:05-07:00") with "2006-01-02T15:04:05Z07:00"%string.
+  unfold t_nanosecond. rewrite Tn, format_nano_ms by lia.
+  destruct (t_fields_range t) as (RM & RD & RH & Rm & Rs).
+  pose proof (civil_bijection (t_days t)) as Hb.
+  assert (t_year t = let '(y, _, _) := civil_of_days (t_days t) in y) as Ey by reflexivity.
+  assert (t_month t = let '(_, mo, _) := civil_of_days (t_days t) in mo) as Emo by reflexivity.
+  assert (t_day t = let '(_, _, d) := civil_of_days (t_days t) in d) as Ed by reflexivity.
+  destruct (civil_of_days (t_days t)) as [[y mo] d]. destruct Hb as (Hdays & Hmo & Hd).
+  rewrite Ey, Emo, Ed in *.
+  destruct (parse_default_text y mo d (t_hour t) (t_minute t) (t_second t) (ms mod 1000) h m)
+    as (t' & Hparse & Hu & Hn); try lia.
+  rewrite Hparse. f_equal.
+  unfold time_to_ms, unix_nano. rewrite Hu, Hn, Hdays.
+  assert (t_days t * 86400 + t_hour t * 3600 + t_minute t * 60 + t_second t = ms / 1000 + off) as Hloc.
+  { unfold t_days, t_hour, t_minute, t_second, t_sod, t_local_sec. rewrite Ts, To.
+    generalize (ms / 1000 + off). intros L. lia. }
+  rewrite Hloc.
+  replace ((ms / 1000 + off - zoff_of h m) * 1000000000 + ms mod 1000 * 1000000)
+    with (ms' * 1000000) by (subst ms'; lia).
+  rewrite wrap64_id by exact Hwrap. lia.
+Qed.
+
+(** PARTIAL inverse law ($toMillis after $fromMillis, default picture).  Proved for: every
+    instant whose local year is 1000..9999 and whose nanosecond count fits an int64 (the
+    UnixNano defect excludes the rest, see [time_to_ms_wraps_refuted]); no zone, or any zone
+    string the code accepts whose offset is a whole number of minutes, below 25h in
+    magnitude, and NOT in (-1h, 0) (the sign defect, see [offset_sign_defect] below).
+    What is missing for the full property: (a) it is conditional on the three stated facts about
+    FormatNumber; (b) instants beyond 2262-04-11 / before 1677-09-21 and offsets in (-1h,0) are
+    genuinely false in the code; (c) pictures other than the default one are not covered. *)
+Theorem to_millis_from_millis_default_partial : forall ms tz off,
+  (tz = None /\ off = 0) \/
+  (exists s, tz = Some s /\ s <> EmptyString /\ parse_time_zone s = LOk (off, s)) ->
+  off mod 60 = 0 -> -90000 < off < 90000 -> ~ (-3600 < off < 0) ->
+  1000 <= local_year ms off <= 9999 ->
+  - two63 <= ms * 1000000 < two63 ->
+  exists text, from_millis fi ms None tz = LOk text /\ to_millis fi text None None = LOk ms.
+Proof.
+  intros ms tz off Htz Hmin Hrange Hsign Hyear Hwrap.
+  assert (zoff_of (Z.quot off 3600) (Z.quot (Z.rem off 3600) 60) = off) as Hz
+    by (unfold zoff_of; destruct (0 <=? Z.quot off 3600) eqn:E; lia).
+  pose proof (to_millis_from_millis_default_gen ms tz off Htz Hrange Hyear) as H.
+  cbv zeta in H. rewrite Hz in H. replace (ms + 1000 * (off - off)) with ms in H by lia.
+  exact (H Hwrap).
+Qed.
+
+(** The sign defect: for a zone offset strictly between -1h and 0 (e.g. "-0030") the rendered
+    text carries a "+" (the sign is taken from the hour part, which is 0), so reading it back
+    yields the instant 2*|offset| earlier.  The property demands ms. *)
+Theorem offset_sign_defect : forall ms s off,
+  s <> EmptyString -> parse_time_zone s = LOk (off, s) ->
+  off mod 60 = 0 -> -3600 < off < 0 ->
+  1000 <= local_year ms off <= 9999 ->
+  - two63 <= (ms + 2000 * off) * 1000000 < two63 ->
+  exists text, from_millis fi ms None (Some s) = LOk text /\
+               to_millis fi text None None = LOk (ms + 2000 * off) /\ ms + 2000 * off <> ms.
+Proof.
+  intros ms s off Hne Hp Hmin Hoff Hyear Hwrap.
+  assert (zoff_of (Z.quot off 3600) (Z.quot (Z.rem off 3600) 60) = - off) as Hz
+    by (unfold zoff_of; destruct (0 <=? Z.quot off 3600) eqn:E; lia).
+  pose proof (to_millis_from_millis_default_gen ms (Some s) off
+                (or_intror (ex_intro _ s (conj eq_refl (conj Hne Hp)))) ltac:(lia) Hyear) as H.
+  cbv zeta in H. rewrite Hz in H. replace (ms + 1000 * (off - - off)) with (ms + 2000 * off) in H by lia.
+  destruct (H Hwrap) as (text & H1 & H2). exists text. repeat split; auto. lia.
+Qed.
+End InverseLaw.
+
+Print Assumptions to_millis_from_millis_default_partial.
+Print Assumptions offset_sign_defect.
+
+(* the three FormatNumber facts are satisfiable, and the theorems apply to concrete instances *)
+Definition fi_example (n : Z) (layout : string) : lres string :=
+  if seqb layout "1" then LOk (dig4 n)
+  else if 0 <=? n then LOk (dig2 n) else LOk (String "-" (dig2 (- n))).
+
+Example inverse_law_ex :
+  exists text, from_millis fi_example 1538323085762 None (Some "+0530"%string) = LOk text /\
+               to_millis fi_example text None None = LOk 1538323085762.
+Proof.
+  apply (to_millis_from_millis_default_partial fi_example) with (off := 19800).
+  - intros n H. reflexivity.
+  - intros n H. unfold fi_example. change (seqb "01" "1") with false. cbv iota.
+    destruct (0 <=? n) eqn:E; [reflexivity|lia].
+  - intros n H. unfold fi_example. change (seqb "01" "1") with false. cbv iota.
+    destruct (0 <=? n) eqn:E; [lia|reflexivity].
+  - right. exists "+0530"%string. split; [reflexivity|]. split; [discriminate|reflexivity].
+  - reflexivity.
+  - lia.
+  - lia.
+  - vm_compute. split; discriminate.
+  - unfold two63. lia.
+Qed.
+
+Example offset_sign_defect_ex :
+  from_millis fi_example 0 None (Some "-0030"%string) = LOk "1969-12-31T23:30:00.000+00:30"%string /\
+  to_millis fi_example "1969-12-31T23:30:00.000+00:30" None None = LOk (-3600000).
+Proof. vm_compute. split; reflexivity. Qed.
+
+(* ------------------------------------------------------------------------------------------ *)
+(** * Invalid time zones are errors; ToMillis ignores its tz argument *)
+
+Theorem from_millis_invalid_tz fi ms pic s :
+  s <> EmptyString -> tz_accepts s = None -> exists e, from_millis fi ms pic (Some s) = LErr e.
+Proof.
+  intros Hne Hacc. unfold from_millis. cbn [opt_string].
+  assert (seqb s "" = false) as -> by (destruct s; [congruence|reflexivity]).
+  rewrite parse_time_zone_char, Hacc. cbn [lbind]. eexists; reflexivity.
+Qed.
+Print Assumptions from_millis_invalid_tz.
+
+Theorem to_millis_ignores_tz fi s pic tz tz' : to_millis fi s pic tz = to_millis fi s pic tz'.
+Proof. reflexivity. Qed.
